@@ -277,6 +277,45 @@ func (g *gen) tree(nLeaves, depth int, batchP float64) int {
 	return g.flowOver(members, 0.5).ID
 }
 
+// lateConnects: on some flows, a few Connect calls are made after the first run.
+func (g *gen) lateConnects() {
+	if g.sc.Runs < 2 {
+		return
+	}
+	for _, f := range g.sc.Nodes {
+		if f.Kind != "flow" || !g.chance(0.4) {
+			continue
+		}
+		members := map[int]bool{f.Start: true}
+		for _, c := range f.Conns {
+			members[c.From] = true
+			if c.To >= 0 {
+				members[c.To] = true
+			}
+		}
+		var ms []int
+		for m := range members {
+			ms = append(ms, m)
+		}
+		sortInts(ms)
+		for k := 1 + g.r.IntN(3); k > 0; k-- {
+			to := -1
+			if !g.chance(0.25) {
+				to = pick(g.r, ms)
+			}
+			f.LateConns = append(f.LateConns, Conn{From: pick(g.r, ms), Action: pick(g.r, []string{"default", "a", "ab", "b"}), To: to})
+		}
+	}
+}
+
+func sortInts(a []int) {
+	for i := 1; i < len(a); i++ {
+		for j := i; j > 0 && a[j] < a[j-1]; j-- {
+			a[j], a[j-1] = a[j-1], a[j]
+		}
+	}
+}
+
 // bounded regenerates until the model's path is within the visit cap.
 func bounded(mk func() *Scn) *Scn {
 	var sc *Scn
@@ -531,6 +570,7 @@ func genC03(prop, tier string, r *rand.Rand) *Scn {
 		if r.IntN(3) == 0 {
 			g.sc.Via = "flowrun"
 		}
+		g.lateConnects()
 		return g.sc
 	})
 }
@@ -644,6 +684,30 @@ func (g *gen) rootBatch(ni, budget, wait, conc int, stop bool, shapes []string) 
 	return n
 }
 
+// secondRun: the same batch node object is run a second time with a fresh,
+// differently sized visit (nothing may leak from the first run).
+func (g *gen) secondRun(n *NodeSpec, budget int, allowErrRes bool) {
+	if !g.chance(0.25) || n.PrepShape == "single" || n.PrepShape == "nil" {
+		return
+	}
+	v2 := Visit{Post: Outcome{Action: pick(g.r, []string{"default", "a", "b"})}}
+	for i := batchSize(g.r, 12); i > 0; i-- {
+		it := Item{Pay: pick(g.r, []string{"int", "str", "map", "ptr", "struct", "slice"})}
+		it.Exec = g.execScript(budget, allowErrRes)
+		for a := range it.Exec {
+			it.Exec[a].SleepMs = 0
+		}
+		if n.HasFb && g.chance(0.6) {
+			fo := g.outcome()
+			fo.SleepMs = 0
+			it.Fb = &fo
+		}
+		v2.Items = append(v2.Items, it)
+	}
+	n.Visits = append(n.Visits, v2)
+	g.sc.Runs = 2
+}
+
 // timing decides how completion orders get explored: by the scheduler
 // (zero-duration callbacks, run-me-last gates) or by the fake clock (drawn durations).
 func (g *gen) timing(n *NodeSpec) {
@@ -681,6 +745,7 @@ func genC06(prop, tier string, r *rand.Rand) *Scn {
 	stop := r.IntN(4) == 0 // positional correspondence holds in either error mode
 	n := g.rootBatch(batchSize(r, 64), budget, pick(r, []int{0, 0, 10}), conc, stop, []string{"results", "anys", "ints", "strings", "single", "nil"})
 	g.timing(n)
+	g.secondRun(n, budget, n.style(1) == 'R' && !stop)
 	return g.sc
 }
 
@@ -704,6 +769,7 @@ func genC07(prop, tier string, r *rand.Rand) *Scn {
 		}
 	}
 	g.timing(n)
+	g.secondRun(n, budget, false)
 	return g.sc
 }
 
@@ -1258,6 +1324,7 @@ func genC10(prop, tier string, r *rand.Rand) *Scn {
 		if r.IntN(4) == 0 {
 			g.sc.Via = "flowrun"
 		}
+		g.lateConnects()
 		return g.sc
 	})
 }
